@@ -2,11 +2,12 @@ package main
 
 func init() {
 	plans["C08"] = Plan{
-		Jobs:  []Job{{Workload: "C08.seq", Mode: "plain", QuickB: 16, ThoroughB: 16}},
+		Jobs: []Job{{Workload: "C08.seq", Mode: "plain", QuickB: 16, ThoroughB: 16},
+			{Workload: "C08.chain", Mode: "plain", QuickB: 16, ThoroughB: 16}},
 		Level: "exploration",
-		Rule: "PRNG-generated op sequences on a real StateDB in the calling patterns of the staking module (create, copy-modify updates, deposit/withdraw, status, rewards/settle, expel/recover, delegation +/-, withdraw records) interleaved with account ops, snapshots/reverts, Finalise/IntermediateRoot, Copy, Commit+reopen; after EVERY step the statistics per role and kind, the token/stake sums, stake=token/unit, the index (GetValidatorsForUpdate; after reopen also GetValidators and the NewVldReader look-back reader) and the two-sided delegation links are recomputed from the records and compared. The chain-level run of the same monitor is part of C06/C07. distinct_nontrivial = distinct (validators, delegations bucket, reverted?, reopened?) signatures.",
+		Rule: "PRNG-generated op sequences on a real StateDB in the calling patterns of the staking module (create, copy-modify updates, deposit/withdraw, status, rewards/settle, expel/recover, delegation +/-, withdraw records) interleaved with account ops, snapshots/reverts, Finalise/IntermediateRoot, Copy, Commit+reopen; after EVERY step the statistics per role and kind, the token/stake sums, stake=token/unit, the index (GetValidatorsForUpdate; after reopen also GetValidators and the NewVldReader look-back reader) and the two-sided delegation links are recomputed from the records and compared. Second job (C08.chain): the same monitor after every block of generated chains on which the REAL staking module changes the validators (staking transactions, take-effect handlers at period ends incl. forced-offline and expel paths, rewards, inactivity slashing) - builder post state, importer head state and the look-back reader; the monitor also rides on every C06/C07 chain. distinct_nontrivial = distinct (validators, delegations bucket, reverted?, reopened?) signatures.",
 		Explanation: "held = no disagreement between maintained aggregates/indexes/links and the records on any step of this run",
 		Assumptions: []string{"existing validators = addresses of the harness' validator key universe for which GetValidatorByMainAddr is non-nil", "objects handed to UpdateValidator are not mutated afterwards by the harness (clean copy-modify)"},
-		Require:     map[string]int64{"checks": 50000, "reverts": 2000, "reopens": 2000, "lookback_readers": 2000, "max_validators": 4, "max_delegations": 4},
+		Require:     map[string]int64{"checks": 50000, "reverts": 2000, "reopens": 2000, "lookback_readers": 2000, "max_validators": 4, "max_delegations": 4, "c08_block_checks": 2000, "ev_delegation_sub_effects": 20, "ev_validator_withdraw_effects": 10},
 	}
 }
